@@ -8,7 +8,7 @@ from vk.wit import concretize as cz
 PIN = {}
 FUNCTIONS = simh.FUNCTIONS
 META = {
-    'bounds': {'SIMH.machines': '2-4 (speeds 10/20, or 10,20,30,40)', 'SIMH.observations': '1-3', 'SIMH.start': '0..3 (0..7 for the late third observation of the singles profile)',
+    'bounds': {'SIMH.machines': '2-4 (speeds 10/20, or 10,20,30,40)', 'SIMH.observations': '1-3 (4 in the array-contention profile)', 'SIMH.start': '0..3 (0..7 for the late third observation of the singles profile)',
                'SIMH.duration': '1..2 (quick) / 1..3 (thorough)',
                'SIMH.workflow': '1-3 tasks; shapes chain, fork, join, free, triangle and three relabelled variants whose node labels are not in topological order; task duration 0..2 injected as int (or compute demand over machine speed), edge volumes 0..15',
                'SIMH.algorithms': ['BatchProcessing(partitions 1-3, min 1; one degenerate per-observation split with min 0)', 'QueueProcessing', 'Dynamic+static stub', 'Greedy+static stub',
@@ -172,7 +172,22 @@ def prof_one(v):
     return sc
 
 
-PROFILES = {'one': prof_one, 'singles': prof_singles, 'two': prof_two, 'three': prof_three, 'delay': prof_delay, 'adv': prof_adv, 'static': prof_static}
+def prof_four(v):
+    """(dX, dA, dB, sC, aA, aB, aC, sB): four observations competing for the ARRAYS of a 10-array telescope (machines and
+    buffers plentiful): X from 0 needs 6; A and B fall due at 1 / sB; C at sC; one-task workflows"""
+    dX, dA, dB, sC, aA, aB, aC, sB = v
+    sc = base_scenario(4)
+    sc['machines'] = [10, 20, 10, 10, 20, 10]
+    sc['alg'] = ALGS.get(PIN.get('alg', 'queue'), dict(kind='queue'))
+    sc['max_ingest'] = 4
+    sc['arrays'] = PIN.get('arrays', 10)
+    for k, (st, du, ar) in enumerate(((0, dX, 6), (1, dA, aA), (sB, dB, aB), (sC, 3, aC))):
+        sc['obs'][k].update(start=st, dur=du, ingest=1, arrays=ar, rate=1)
+    sc['graphs'] = [dict(n=1, edges=[], durs=[1])]
+    return sc
+
+
+PROFILES = {'four': prof_four, 'one': prof_one, 'singles': prof_singles, 'two': prof_two, 'three': prof_three, 'delay': prof_delay, 'adv': prof_adv, 'static': prof_static}
 
 
 def _grid_run(profile, v, props):
@@ -270,6 +285,7 @@ def G(profile, ranges, props, T=200, **pin):
 
 
 R_TWO = [(0, 2), (1, 2), (1, 2), (0, 2), (0, 2), (1, 2), (1, 2), (5, 5)]
+R_FOUR = [(3, 5), (5, 6), (2, 4), (4, 6), (5, 6), (3, 4), (5, 6), (1, 2)]
 R_ONE = [(1, 2), (0, 2), (0, 2), (0, 2), (0, 3), (2, 3), (4, 6), (1, 2)]
 R_THREE = [(0, 2), (0, 3), (1, 2), (1, 2), (1, 2), (0, 2), (1, 1), (0, 2)]
 
